@@ -326,6 +326,9 @@ where
 
         let mut data = &mut self.data;
         let mut pos = 0;
+        // Slot of the item currently marked as the last one and the offset that seals it.
+        // It is written only after the new item has been emplaced successfully.
+        let mut seal = None;
 
         loop {
             let offset = *L::from_bytes(data)?;
@@ -336,13 +339,13 @@ where
                 let payload_size = ceil_mul(T::from_bytes(payload)?.size(), Self::ALIGN);
                 let last_offset = offset_size + payload_size;
                 pos += last_offset;
-                L::from_usize(last_offset)
+                let sealed_offset = L::from_usize(last_offset)
                     .and_then(|o| if o < L::max_value() { Some(o) } else { None })
                     .ok_or(Error {
                         kind: ErrorKind::InsufficientSize,
                         pos,
-                    })?
-                    .emplace(offset_slot)?;
+                    })?;
+                seal = Some((offset_slot, sealed_offset));
                 (_, data) = payload.split_at_mut(payload_size);
                 break;
             }
@@ -359,8 +362,13 @@ where
         }
 
         let (offset_slot, payload) = data.split_at_mut(offset_size);
+        // Nothing of the existing chain is touched until the item is in place.
+        let item = emplacer.emplace(payload)?;
         L::max_value().emplace(offset_slot)?;
-        emplacer.emplace(payload)
+        if let Some((last_slot, sealed_offset)) = seal {
+            sealed_offset.emplace(last_slot)?;
+        }
+        Ok(item)
     }
     pub fn push_default(&mut self) -> Result<&mut T, Error>
     where
